@@ -481,7 +481,7 @@ impl Shared {
         s.short.update(&buf);
         s.normal.update(&buf);
         // the long one gets low-entropy data so that the weak-bucket gates are exercised, too
-        let low: Vec<u8> = buf.iter().map(|b| b"ABCDE"[(*b % 5) as usize]).collect();
+        let low: Vec<u8> = (0..buf.len()).map(|i| b"ABCDE"[i % 5]).collect(); // periodic: three quarters of the buckets stay empty
         s.long.update(if r.chance(1, 2) { &buf } else { &low });
         s
     }
